@@ -1,0 +1,83 @@
+// Tencent is pleased to support the open source community by making trpc-mcp-go available.
+//
+// Copyright (C) 2025 Tencent.  All rights reserved.
+//
+// trpc-mcp-go is licensed under the Apache License Version 2.0.
+
+package schema
+
+import (
+	"encoding"
+	"encoding/json"
+	"reflect"
+	"strings"
+	"time"
+
+	"github.com/getkin/kin-openapi/openapi3"
+)
+
+var (
+	jsonMarshalerType = reflect.TypeOf((*json.Marshaler)(nil)).Elem()
+	textMarshalerType = reflect.TypeOf((*encoding.TextMarshaler)(nil)).Elem()
+	timeType          = reflect.TypeOf(time.Time{})
+	jsonNumberType    = reflect.TypeOf(json.Number(""))
+)
+
+// implementsOnValueOrPointer reports whether t or *t implements the interface iface.
+func implementsOnValueOrPointer(t reflect.Type, iface reflect.Type) bool {
+	if t.Implements(iface) {
+		return true
+	}
+	return t.Kind() != reflect.Ptr && t.Kind() != reflect.Interface && reflect.PtrTo(t).Implements(iface)
+}
+
+// encodedTypeSchema returns the schema of a (pointer-free) type whose JSON form is not the one
+// its Go kind suggests, or nil when the kind decides:
+//   - time.Time is an RFC 3339 string, json.Number a number,
+//   - a type with its own MarshalJSON may produce anything,
+//   - a type with MarshalText is a string,
+//   - an interface value may hold anything,
+//   - a byte slice is a base64 string.
+func encodedTypeSchema(t reflect.Type) *openapi3.Schema {
+	switch {
+	case t == timeType:
+		return openapi3.NewDateTimeSchema()
+	case t == jsonNumberType:
+		s := openapi3.NewSchema()
+		s.Type = &openapi3.Types{"number"}
+		return s
+	case implementsOnValueOrPointer(t, jsonMarshalerType):
+		return openapi3.NewSchema()
+	case implementsOnValueOrPointer(t, textMarshalerType):
+		return openapi3.NewStringSchema()
+	case t.Kind() == reflect.Interface:
+		return openapi3.NewSchema()
+	case t.Kind() == reflect.Slice && t.Elem().Kind() == reflect.Uint8 &&
+		!implementsOnValueOrPointer(t.Elem(), jsonMarshalerType) && !implementsOnValueOrPointer(t.Elem(), textMarshalerType):
+		return openapi3.NewBytesSchema()
+	}
+	return nil
+}
+
+// quotedFieldSchema returns a string schema when the field carries the `json:",string"` option
+// and has a kind the option applies to (then encoding/json writes the value inside a JSON string),
+// and fieldSchema otherwise.
+func quotedFieldSchema(field reflect.StructField, fieldSchema *openapi3.Schema) *openapi3.Schema {
+	tag := field.Tag.Get("json")
+	i := strings.Index(tag, ",")
+	if i < 0 || !strings.Contains(","+tag[i+1:]+",", ",string,") {
+		return fieldSchema
+	}
+	t := field.Type
+	if t.Kind() == reflect.Ptr {
+		t = t.Elem()
+	}
+	switch t.Kind() {
+	case reflect.Bool, reflect.String,
+		reflect.Int, reflect.Int8, reflect.Int16, reflect.Int32, reflect.Int64,
+		reflect.Uint, reflect.Uint8, reflect.Uint16, reflect.Uint32, reflect.Uint64, reflect.Uintptr,
+		reflect.Float32, reflect.Float64:
+		return openapi3.NewStringSchema()
+	}
+	return fieldSchema
+}
